@@ -11,6 +11,7 @@ import PrqlModel.Drv.Take
 import PrqlModel.Drv.Json
 import PrqlModel.Drv.Projection
 import PrqlModel.Drv.Clause
+import PrqlModel.Drv.Window
 namespace Drv
 
 def handlers : List (List String → Option String) := [
@@ -20,7 +21,8 @@ def handlers : List (List String → Option String) := [
   Drv.Take.handle,
   Drv.Json.handle,
   Drv.Projection.handle,
-  Drv.Clause.handle
+  Drv.Clause.handle,
+  Drv.Window.handle
 ]
 
 def handle (fields : List String) : String :=
